@@ -8,7 +8,7 @@ import re
 from ..ccfg import get_ccfg
 from ..cfacts import CREL, get_cfacts
 from ..core import AnalysisError, rule
-from ..cexpr import int_value, strip
+from ..cexpr import callee, cnorm, int_value, is_null, strip
 from ..csym import feasible_paths
 
 STORES = {"PyDict_SetItem", "call_notifiers", "->post_setattr",
@@ -1096,3 +1096,150 @@ def items_event_delivered(ctx, res):
                f"`on_trait_change(handler)` - never see the in-place change",
                _plines(bad) if bad else None)
     res.floor(1)
+
+
+# ---------------------------------------------------------------------------
+# C02.gate-complete: a non-empty notifier list always opens the gate
+
+@rule("C02.gate-complete", ["C02", "C08", "C16"],
+      "every condition of the C core that consults both notifier lists (the "
+      "trait's and the object's) before calling call_notifiers lets the call "
+      "happen whenever at least one of the two lists is non-empty: decided "
+      "over the nine combinations {NULL, empty, non-empty}^2, every other "
+      "test of the condition taken as favourable")
+def gate_complete(ctx, res):
+    facts = get_cfacts(ctx)
+    STATES = ("null", "empty", "some")
+
+    def nvars(e):
+        out = []
+        for x in e.walk():
+            t = None
+            if x.kind == "MemberExpr" and x.name == "notifiers":
+                t = cnorm(x)
+            elif x.kind == "DeclRefExpr" and "notifiers" in (x.ref or "") \
+                    and x.refkind != "FunctionDecl":
+                t = x.ref
+            if t and t not in out:
+                out.append(t)
+        return out
+
+    class Crash(Exception):
+        pass
+
+    def ev(e, env):
+        """True / False / None (unknown, favourable)"""
+        s = strip(e)
+        if s is None:
+            return None
+        if s.kind == "BinaryOperator" and s.op in ("&&", "||"):
+            a = ev(s.ch[0], env)
+            if s.op == "&&":
+                if a is False:
+                    return False
+                b = ev(s.ch[1], env)
+                return False if b is False else (True if a and b else None)
+            if a is True:
+                return True
+            b = ev(s.ch[1], env)
+            return True if b is True else (False if a is False and b is False
+                                           else None)
+        if s.kind == "UnaryOperator" and s.op == "!":
+            a = ev(s.ch[0], env)
+            return None if a is None else not a
+        if s.kind == "ConditionalOperator" and len(s.ch) == 3:
+            c = ev(s.ch[0], env)
+            if c is None:
+                a, b = ev(s.ch[1], env), ev(s.ch[2], env)
+                return a if a == b else None
+            return ev(s.ch[1] if c else s.ch[2], env)
+        if s.kind == "BinaryOperator" and s.op in ("==", "!=", ">", ">=", "<",
+                                                   "<="):
+            l, r = val(s.ch[0], env), val(s.ch[1], env)
+            if l is None or r is None:
+                return None
+            return {"==": l == r, "!=": l != r, ">": l > r, ">=": l >= r,
+                    "<": l < r, "<=": l <= r}[s.op]
+        v = val(s, env)
+        return None if v is None else bool(v)
+
+    def val(e, env):
+        """abstract value: ('ptr', state) compared as 0 / 1, sizes 0 / 1"""
+        s = strip(e)
+        if s is None:
+            return None
+        k = int_value(s)
+        if k is not None:
+            return k
+        if is_null(s):
+            return 0
+        t = cnorm(s) if s.kind == "MemberExpr" else (
+            s.ref if s.kind == "DeclRefExpr" else None)
+        if t in env:
+            return 0 if env[t] == "null" else 1
+        if s.kind == "CallExpr" and callee(s) in ("PyList_GET_SIZE",
+                                                  "PyList_Size", "Py_SIZE"):
+            a = strip(s.ch[1])
+            ta = cnorm(a) if a.kind == "MemberExpr" else getattr(a, "ref", None)
+            if ta in env:
+                if env[ta] == "null":
+                    raise Crash(ta)
+                return 0 if env[ta] == "empty" else 1
+        if s.kind == "ConditionalOperator" and len(s.ch) == 3:
+            c = ev(s.ch[0], env)
+            if c is None:
+                return None
+            return val(s.ch[1] if c else s.ch[2], env)
+        return None
+    n_gates = 0
+    for fname in sorted(facts.defined_functions()):
+        fn = facts.func(fname)
+        if not any(c.kind == "CallExpr" and callee(c) == "call_notifiers"
+                   for c in fn.walk()):
+            continue
+        g = get_ccfg(ctx, facts, fname)
+        roots = {}
+        for n in g.nodes:
+            if n.kind == "cond" and n.info is not None:
+                roots.setdefault(id(n.info), n.info)
+        # a flag local that holds the outcome of such a test
+        for x in fn.walk():
+            rhs = None
+            if x.kind == "BinaryOperator" and x.op == "=" and len(x.ch) == 2 \
+                    and strip(x.ch[0]).kind == "DeclRefExpr":
+                rhs = x.ch[1]
+            elif x.kind == "VarDecl" and x.ch and (x.type or "").startswith(
+                    ("int", "long", "_Bool", "bool")):
+                rhs = x.ch[-1]
+            if rhs is not None and len(nvars(rhs)) == 2:
+                roots.setdefault(id(rhs), rhs)
+        for root in roots.values():
+            vs = nvars(root)
+            if len(vs) != 2:
+                continue
+            n_gates += 1
+            key = f"{fname}:{root.line}"
+            bad = None
+            for a in STATES:
+                for b in STATES:
+                    if "some" not in (a, b):
+                        continue
+                    try:
+                        r = ev(root, {vs[0]: a, vs[1]: b})
+                    except Crash as c:
+                        bad = (a, b, f"reads the size of `{c}` which is NULL")
+                        break
+                    if r is False:
+                        bad = (a, b, "is false")
+                        break
+                if bad:
+                    break
+            res.instance(f"{fname}:gate", facts.loc(root), lists=vs)
+            res.oblige(bad is None, f"{fname}:gate-complete", facts.loc(root),
+                       f"{fname}: with `{vs[0]}` {bad[0] if bad else ''} and "
+                       f"`{vs[1]}` {bad[1] if bad else ''} the condition "
+                       f"`{cnorm(root)[:90]}` {bad[2] if bad else ''}: handlers "
+                       f"registered on the non-empty list are not called")
+    if n_gates < 4:
+        raise AnalysisError(f"only {n_gates} two-list notifier gates found")
+    res.floor(4)
